@@ -71,7 +71,7 @@ impl IpFrag {
         let byte_len = (len as usize) << 3;
         let byte_end = byte_off + byte_len;
         let end = min(byte_end, self.payload.len());
-        let content = &self.payload[byte_off..end];
+        let content = &self.payload[min(byte_off, end)..end];
 
         IpDgram::new(self.hdr, content, raw)
             .frag(off, end != self.payload.len())
